@@ -449,17 +449,41 @@ func judge(it item) verdictOf {
 	best := reading{alt: 0, res: def, exp: defExp}
 	best.fails, best.st, best.prefix = compare(text, run, defExp)
 	if len(best.fails) > 0 && def.Consulted != 0 {
-		tried := map[lexref.Choice]bool{0: true}
-		queue := []lexref.Choice{}
-		for _, b := range def.Consulted.Bits() {
-			queue = append(queue, b)
-			tried[b] = true
+		type state struct {
+			alt lexref.Choice
+			ws  string
 		}
+		key := func(s state) string { return fmt.Sprintf("%d|%s", s.alt, s.ws) }
+		tried := map[string]bool{key(state{}): true}
+		var queue []state
+		push := func(s state) {
+			if k := key(s); !tried[k] {
+				tried[k] = true
+				queue = append(queue, s)
+			}
+		}
+		successors := func(from state, res lexref.Result) {
+			for _, b := range res.Consulted.Bits() {
+				if b == lexref.ExoticWhitespace {
+					continue // decided per rune below
+				}
+				if from.alt&b == 0 {
+					push(state{from.alt | b, from.ws})
+				}
+			}
+			if res.ExoticAt != 0 {
+				push(state{from.alt, from.ws + string(res.ExoticAt)})
+			}
+		}
+		successors(state{}, def)
 		for qi := 0; qi < len(queue) && qi < 128; qi++ {
-			alt := queue[qi]
-			res := lexref.Lex(it.Text, lexref.Options{Alt: alt})
+			st := queue[qi]
+			res := lexref.Lex(it.Text, lexref.Options{Alt: st.alt, WS: st.ws})
 			v.Consulted |= res.Consulted
-			r := reading{alt: alt, res: res, exp: fromRef(res)}
+			r := reading{alt: st.alt, res: res, exp: fromRef(res)}
+			if st.ws != "" {
+				r.alt |= lexref.ExoticWhitespace
+			}
 			r.fails, r.st, r.prefix = compare(text, run, r.exp)
 			if len(r.fails) == 0 || (len(best.fails) > 0 && r.prefix > best.prefix) {
 				best = r
@@ -467,12 +491,7 @@ func judge(it item) verdictOf {
 			if len(r.fails) == 0 {
 				break
 			}
-			for _, b := range res.Consulted.Bits() {
-				if n := alt | b; !tried[n] {
-					tried[n] = true
-					queue = append(queue, n)
-				}
-			}
+			successors(st, res)
 		}
 	}
 	v.Exp = best.exp
